@@ -918,7 +918,10 @@ class Table(Vector):
 			# Raise mismatched row counts
 			if len(self) != len(other):
 				raise ValueError(f"Row count mismatch: {len(self)} != {len(other)}")
-			return Vector(tuple(op(x, y) for x, y in zip(self, other, strict=True))).T
+			# (a None entry is a missing value: every comparison in its row is False, as in column == sequence)
+			n_cols = len(self.cols())
+			return Vector(tuple(op(x, y) if y is not None else Vector([False] * n_cols)
+				for x, y in zip(self, other, strict=True))).T
 		return Vector(tuple(op(x, other) for x in self.cols()))
 
 	def __rshift__(self, other):
